@@ -68,7 +68,7 @@ SCHEMA: Dict[str, Dict[str, Any]] = {
                    chain=["CustomEntityDAO", "SymbolDAO"], kind="alt", mapping="CustomEntity"),
     "DerivedEntity": dict(scal=[("name", "s"), ("attribute_that_shouldnt_appear_at_all", "f0"), ("description", "s")],
                           refs=[], chain=["DerivedEntityDAO", "CustomEntityDAO", "SymbolDAO"], kind="sub",
-                          mapping="DerivedEntityDAO"),
+                          mapping="DerivedEntityDAO", pf=(2, 0)),
     "EntityAssociation": dict(scal=[("a", "ls")], refs=[R("entity", "one", "Entity", False, "EntityAssociationDAO")],
                               chain=["EntityAssociationDAO", "SymbolDAO"]),
     "Reference": dict(scal=[("value", "i")], refs=[R("backreference", "one", "Backreference", True, "ReferenceDAO")],
@@ -199,8 +199,56 @@ class AuxMission:
 class AuxSchedule:
     missions: List[AuxMission] = field(default_factory=list)
     spares: List[AuxTrajectory] = field(default_factory=list)
+
+
+@dataclass
+class AuxFrame:
+    name: str
+
+
+@dataclass
+class AuxTag:
+    text: str
+
+
+@dataclass
+class AuxSensor:
+    name: str
+    mount: AuxFrame
+    tags: List[AuxTag] = field(default_factory=list)
+
+
+@dataclass
+class AuxSensorMapping(AlternativeMapping[AuxSensor]):
+    """stores its relationships under other names than the domain attributes"""
+
+    identifier: str
+    mounting_frame: AuxFrame
+    labels: List[AuxTag]
+
+    @classmethod
+    def create_instance(cls, obj: AuxSensor):
+        return cls(obj.name, obj.mount, obj.tags)
+
+    def create_from_dao(self) -> AuxSensor:
+        return AuxSensor(self.identifier, self.mounting_frame, self.labels)
+
+
+@dataclass
+class AuxCamera(AuxSensor):
+    """a NORMALLY mapped subclass of an alternatively mapped class whose mapping holds relationships"""
+
+    resolution: int = 480
+    housing: Optional[AuxFrame] = None
+
+
+@dataclass
+class AuxRig:
+    sensors: List[AuxSensor] = field(default_factory=list)
+    main: Optional[AuxSensor] = None
 '''
-AUX_CLASSES = ["AuxPoint", "AuxPolyline", "AuxDrawing", "AuxWaypoint", "AuxTrajectory", "AuxMission", "AuxSchedule"]
+AUX_CLASSES = ["AuxPoint", "AuxPolyline", "AuxDrawing", "AuxWaypoint", "AuxTrajectory", "AuxMission", "AuxSchedule",
+               "AuxFrame", "AuxTag", "AuxSensor", "AuxCamera", "AuxRig"]
 SCHEMA.update({
     "AuxPolyline": dict(scal=[("name", "s"), ("coordinates", "lf2")], refs=[], chain=["AuxPolylineMappingDAO"],
                         kind="alt", mapping="AuxPolylineMapping"),
@@ -217,6 +265,22 @@ SCHEMA.update({
     "AuxSchedule": dict(scal=[], refs=[R("missions", "many", "AuxMission", False, "AuxScheduleDAO", lens=[1, 2, 3, 4]),
                                        R("spares", "many", "AuxTrajectory", False, "AuxScheduleDAO", lens=[0, 1, 2])],
                         chain=["AuxScheduleDAO"]),
+    # an alternatively mapped class whose mapping stores RELATIONSHIPS under other names, and a normally mapped
+    # subclass of it (from_dao rebuilds the parent through a temporary parent DAO to get mount / tags back)
+    "AuxFrame": dict(scal=[("name", "s")], refs=[], chain=["AuxFrameDAO"]),
+    "AuxTag": dict(scal=[("text", "s")], refs=[], chain=["AuxTagDAO"]),
+    "AuxSensor": dict(scal=[("name", "s")],
+                      refs=[R("mount", "one", "AuxFrame", False, "AuxSensorMappingDAO", dao_name="mounting_frame"),
+                            R("tags", "many", "AuxTag", False, "AuxSensorMappingDAO", dao_name="labels", lens=[0, 1, 2, 2, 3])],
+                      chain=["AuxSensorMappingDAO"], kind="alt", mapping="AuxSensorMapping"),
+    "AuxCamera": dict(scal=[("name", "s"), ("resolution", "i")],
+                      refs=[R("mount", "one", "AuxFrame", False, "AuxSensorMappingDAO", dao_name="mounting_frame"),
+                            R("tags", "many", "AuxTag", False, "AuxSensorMappingDAO", dao_name="labels", lens=[0, 1, 2, 2, 3]),
+                            R("housing", "one", "AuxFrame", True, "AuxCameraDAO")],
+                      chain=["AuxCameraDAO", "AuxSensorMappingDAO"], kind="sub", mapping="AuxCameraDAO", pf=(1, 2)),
+    "AuxRig": dict(scal=[], refs=[R("sensors", "many", "AuxSensor", False, "AuxRigDAO", lens=[1, 2, 2, 3, 4]),
+                                  R("main", "one", "AuxSensor", True, "AuxRigDAO")],
+                   chain=["AuxRigDAO"]),
 })
 
 
@@ -236,6 +300,8 @@ MAPPING_SCHEMA: Dict[str, Dict[str, Any]] = {
     "VectorMapped": dict(scal=[("x", "f")], refs=[]),
     "TransformationMapped": dict(scal=[], refs=[R("vector", "one", "Vector", False, ""), R("rotation", "one", "Rotation", True, "")]),
     "VectorsWithPropertyMapped": dict(scal=[], refs=[R("vectors", "many", "Vector", False, "")]),
+    "AuxSensorMapping": dict(scal=[("identifier", "s")], refs=[R("mounting_frame", "one", "AuxFrame", False, ""),
+                                                               R("labels", "many", "AuxTag", False, "")]),
 }
 for _c, _d in SCHEMA.items():
     _d.setdefault("kind", "plain")
@@ -246,6 +312,7 @@ SUBCLASSES = {
     "KinematicChain": ["KinematicChain", "Torso"],
     "Entity": ["Entity", "DerivedEntity"],
     "Rotation": [],  # RotationMapped.create_from_dao returns None in the dataset: not a round-tripping pair
+    "AuxSensor": ["AuxSensor", "AuxCamera", "AuxCamera"],
 }
 
 
@@ -263,6 +330,10 @@ def view_scalars(cls: str, scal: Dict[str, Any]) -> Dict[str, Any]:
         return {"values": list(scal["unmappable"].values())}
     if cls == "Vector":
         return {"x": scal["x"]}
+    if cls == "AuxSensor":
+        return {"identifier": scal["name"]}
+    if cls == "AuxCamera":
+        return {"identifier": scal["name"], "resolution": scal["resolution"]}
     if cls == "AuxPolyline":
         c = scal["coordinates"]
         return {"name": scal["name"], "points": [[c[i], c[i + 1]] for i in range(0, len(c), 2)]}
@@ -480,6 +551,8 @@ def node_line(i: int, n: Dict[str, Any]) -> str:
              "(tabs " + " ".join(sch["chain"]) + ")"]
     for t, k in extras_of(n["cls"], n["scal"]):
         parts.append(f"(extra {t} {k})")
+    if "pf" in sch:  # kind sub: leading scalars / references that from_dao takes from the rebuilt parent
+        parts.append(f"(pf {sch['pf'][0]} {sch['pf'][1]})")
     for spec, r in zip(sch["refs"], n["refs"]):
         star = f"! {spec['decl']}.{spec['dao_name']}_id" if spec["star"] else ""
         if spec["kind"] == "many":
@@ -493,7 +566,8 @@ def node_line(i: int, n: Dict[str, Any]) -> str:
 
 
 def heap_line(heap: Dict[str, Any]) -> str:
-    return ("(g (roots " + " ".join(map(str, heap["roots"])) + f") (via {heap.get('via', 0)}) "
+    tries = f" (tries {heap['tries']})" if heap.get("tries", 1) > 1 else ""
+    return ("(g (roots " + " ".join(map(str, heap["roots"])) + f") (via {heap.get('via', 0)}){tries} "
             + " ".join(node_line(i, n) for i, n in enumerate(heap["nodes"])) + ")")
 
 
@@ -541,13 +615,17 @@ def parse_heap(line: str) -> Dict[str, Any]:
             heap["roots"] = [int(x) for x in item[1:]]
         elif item[0] == "via":
             heap["via"] = int(item[1])
+        elif item[0] == "tries":
+            # harness only: repeat the conversion up to n times and report the first run that deviates from the input
+            # (the way to observe an allocation dependent, i.e. nondeterministic, defect on a fixed witness)
+            heap["tries"] = int(item[1])
         elif item[0] == "n":
             _, oid, cls, _kind, scal, _mapping, view, _tabs, *refs = item
             assert int(oid) == len(heap["nodes"])
             rr = []
             for r in refs:
                 tag = r[0].rstrip("!")
-                if tag == "extra":  # derived from class and scalars (extras_of)
+                if tag in ("extra", "pf"):  # derived from the class (and scalars)
                     continue
                 if tag == "none":
                     rr.append(None)
@@ -596,7 +674,10 @@ def prune(heap, roots=None, via=None) -> Dict[str, Any]:
         for r in n["refs"]:
             rr.append(None if r is None else idx[r] if isinstance(r, int) else [idx[t] for t in r])
         nodes.append({"cls": n["cls"], "scal": n["scal"], "view": n["view"], "refs": rr})
-    return {"nodes": nodes, "roots": [idx[r] for r in roots], "via": heap.get("via", 0) if via is None else via}
+    out = {"nodes": nodes, "roots": [idx[r] for r in roots], "via": heap.get("via", 0) if via is None else via}
+    if heap.get("tries", 1) > 1:
+        out["tries"] = heap["tries"]
+    return out
 
 
 # ------------------------------------------------------------------------------------------------------------------
@@ -612,6 +693,7 @@ ROOT_WEIGHTS = [
     ("PositionTypeWrapper", 1), ("MultipleInheritance", 1), ("PrivateDefaultFactory", 1), ("ChildMapped", 1),
     ("Parent", 1), ("OriginalSimulatedObject", 1), ("Position5D", 1), ("DerivedEntity", 1), ("Orientation", 1),
     ("AuxDrawing", 5), ("AuxSchedule", 5), ("AuxMission", 2), ("AuxTrajectory", 1), ("AuxPolyline", 1),
+    ("AuxRig", 6), ("AuxCamera", 3), ("AuxSensor", 1),
 ]
 
 
@@ -630,6 +712,7 @@ def _mk_node(rng, cls: str, twins: Optional[List[Dict[str, Any]]] = None) -> Dic
 
 
 MAX_SELFHIER = 6  # at most this many Node objects per heap (keeps the set of admissible flush orders small)
+MAX_SUB = 4  # at most this many objects below an alternatively mapped DAO per heap (outcomes of F-C04-2: <= 4! = 24)
 
 
 def gen_heap(rng, max_nodes: int = 12, p_reuse: float = 0.45, p_none: float = 0.3, seed_cls: Optional[str] = None,
@@ -654,7 +737,11 @@ def gen_heap(rng, max_nodes: int = 12, p_reuse: float = 0.45, p_none: float = 0.
             return rng.choice(cands)
         if full or not concrete(target):
             return None
-        return new(rng.choice(concrete(target)))
+        cls = rng.choice(concrete(target))
+        if SCHEMA[cls]["kind"] == "sub" and sum(1 for n in nodes if SCHEMA[n["cls"]]["kind"] == "sub") >= MAX_SUB:
+            subs = [i for i in cands if SCHEMA[nodes[i]["cls"]]["kind"] == "sub"]
+            return rng.choice(subs) if subs else None
+        return new(cls)
 
     new(seed_cls or rng.choice(names))
     # a second seed of the same family now and then (forests for Node, several aggregators over shared positions)
@@ -804,6 +891,8 @@ def tags_of(heap) -> Tuple[str, ...]:
                         tags.add("alt-in-collection")
         if SCHEMA[n["cls"]]["kind"] == "sub":
             tags.add("below-alt-dao")
+            if any(r not in (None, []) for r in n["refs"]):
+                tags.add("below-alt-dao-with-relationships")
         if SCHEMA[n["cls"]]["kind"] == "alt":
             tags.add("alt-mapped")
     if sum(1 for n in nodes if n["cls"] == "AuxPolyline" and extras_of(n["cls"], n["scal"])) >= 2:
@@ -1269,15 +1358,20 @@ def work_c04(line: str) -> str:
     try:
         ex = _W["ex"]
         heap = parse_heap(line)
-        objs = build_objects(heap, ex)
-        root = objs[heap["roots"][0]]
-        before = canon([root])
         from krrood.ormatic.dao import to_dao
-        dao = to_dao(root)
-        res = dao.from_dao()
-        out = canon([res])
-        if canon([root]) != before:
-            return "input-mutated " + out
+        expected = canon_heap(prune(heap, heap["roots"][:1]))
+        out = ""
+        for _ in range(max(1, heap.get("tries", 1))):
+            objs = build_objects(heap, ex)
+            root = objs[heap["roots"][0]]
+            before = canon([root])
+            dao = to_dao(root)
+            res = dao.from_dao()
+            out = canon([res])
+            if canon([root]) != before:
+                return "input-mutated " + out
+            if out != expected:
+                break
         return out
     except RecursionError:
         return "exc:RecursionError"
@@ -1296,14 +1390,41 @@ def work_c05(line: str) -> str:
     try:
         ex, iface = _W["ex"], _W["iface"]
         heap = parse_heap(line)
-        objs = build_objects(heap, ex)
-        roots = [objs[r] for r in heap["roots"]]
         from sqlalchemy import func, select
         from sqlalchemy.orm import Session
         from krrood.ormatic.dao import FromDAOState, ToDAOState, to_dao
         from krrood.ormatic.utils import create_engine
         engine = create_engine("sqlite:///:memory:")
         iface.Base.metadata.create_all(engine)
+        want = prune(heap)
+        result = ""
+        for attempt in range(max(1, heap.get("tries", 1))):
+            if attempt:  # empty database again (same engine: create_all is the expensive part)
+                with engine.begin() as conn:
+                    for t in reversed(iface.Base.metadata.sorted_tables):
+                        conn.execute(t.delete())
+            text, result = _persist_reload_once(heap, want, ex, iface, engine, Session, select, func, FromDAOState,
+                                                ToDAOState, to_dao)
+            if text != canon_heap(want):
+                break
+        return result
+    except RecursionError:
+        return "exc:RecursionError"
+    except BaseException as e:  # noqa: BLE001
+        return _exc_text(e)
+    finally:
+        if engine is not None:
+            try:
+                engine.dispose()
+            except Exception:  # noqa: BLE001
+                pass
+        _cleanup_symbols()
+
+
+def _persist_reload_once(heap, want, ex, iface, engine, Session, select, func, FromDAOState, ToDAOState, to_dao):
+    if True:
+        objs = build_objects(heap, ex)
+        roots = [objs[r] for r in heap["roots"]]
         state = ToDAOState()
         daos = [to_dao(o, state) for o in roots]
         with Session(engine) as a:
@@ -1328,19 +1449,7 @@ def work_c05(line: str) -> str:
                 c = b.execute(select(func.count()).select_from(t)).scalar()
                 if c:
                     counts[t.name] = c
-        want = prune(heap)
         text = canon_heap(got)
         if text != canon_heap(want) and iso_multiset(want, got):
             text = canon_heap(want)  # same graph up to the order inside collections: what the property demands
-        return text + " rows:" + ",".join(f"{k}={v}" for k, v in sorted(counts.items()))
-    except RecursionError:
-        return "exc:RecursionError"
-    except BaseException as e:  # noqa: BLE001
-        return _exc_text(e)
-    finally:
-        if engine is not None:
-            try:
-                engine.dispose()
-            except Exception:  # noqa: BLE001
-                pass
-        _cleanup_symbols()
+        return text, text + " rows:" + ",".join(f"{k}={v}" for k, v in sorted(counts.items()))
